@@ -103,3 +103,35 @@ def module_scope(prop, P=None):
                     "parse_set_indexes", "parse_stats_mode"):
                 names.add(f.name)
     return lambda f: f in names
+
+
+_MOVE = re.compile(r"tsk_tree_(first|last|next|prev|seek\w*|clear|copy|init|free|insert_\w+|remove_\w+|update_index_and_interval|position_\w+)$")
+LIB = {
+    "C01": lambda k, f: (k == "trees" and (f.startswith("tsk_tree_") or f.startswith("tsk_diff_iter") or f in ("tsk_treeseq_init_trees",)))
+    or f in ("tsk_table_collection_build_index", "cmp_index_sort"),
+    "C02": lambda k, f: f.startswith("tsk_table_collection_check_") or f in ("check_offsets", "tsk_treeseq_init", "tsk_treeseq_load", "tsk_treeseq_loadf")
+    or f.startswith("tsk_treeseq_init_"),
+    "C03": lambda k, f: k == "genotypes",
+    "C04": lambda k, f: f.startswith("simplifier_") or f == "tsk_table_collection_simplify" or f.startswith("tsk_blkalloc"),
+    "C05": lambda k, f: k == "kastore" or (k == "tables" and re.search(r"(_equals|_copy|_dump|_load|^read_|^write_|_dumpf|_loadf|_load_|_dump_)", f) is not None),
+    "C06": lambda k, f: k == "trees" and _MOVE.match(f) is not None,
+    "C07": lambda k, f: k == "tables" and (f.startswith("tsk_table_sorter_") or f.startswith("cmp_") or f in (
+        "tsk_table_collection_sort", "tsk_table_collection_canonicalise", "tsk_table_collection_deduplicate_sites",
+        "tsk_table_collection_compute_mutation_parents", "tsk_table_collection_compute_mutation_times", "tsk_table_collection_build_index")),
+    "C08": lambda k, f: k == "stats" or (k == "trees" and not f.startswith("tsk_tree_") and not f.startswith("tsk_diff_iter")),
+    "C09": lambda k, f: True,
+    "C10": lambda k, f: k == "kastore" or (k == "tables" and re.search(r"(_load|^read_|_loadf|_load_|check_offsets|check_ragged|takeset)", f) is not None),
+    "C11": lambda k, f: f in ("tsk_table_collection_delete_older", "tsk_treeseq_split_edges", "tsk_treeseq_extend_haplotypes",
+                              "tsk_treeseq_slide_mutation_nodes_up", "extend_haplotypes_iter") or f.startswith("haplotype_extender"),
+    "C13": lambda k, f: k == "tables" and ("_table_" in f and not f.startswith("tsk_table_collection") and not f.startswith("tsk_table_sorter")
+                                           or f.startswith("subset_") or f in ("calculate_max_rows", "calculate_max_length", "expand_column",
+                                                                               "expand_ragged_column", "check_offsets", "keep_mask_to_id_map")),
+    "C14": lambda k, f: f in ("tsk_table_collection_subset", "tsk_table_collection_union", "tsk_table_collection_add_and_remap_node",
+                              "tsk_check_subset_equality"),
+    "C18": lambda k, f: k == "convert",
+    "C19": lambda k, f: k == "tables" and ("ibd" in f or "identity_segment" in f or f == "pair_to_integer" or f == "integer_to_pair"),
+}
+
+
+def lib_scope(prop):
+    return LIB[prop]
